@@ -302,7 +302,15 @@ where
     type Cast<U: SimdElement> = Simd<U, N>;
     #[inline]
     fn abs(self) -> Self {
-        Self(array::from_fn(|i| num_traits::sign::abs(self.0[i])))
+        // wraps on the minimum value as `std::simd`'s `abs` does (no overflow panic).
+        Self(array::from_fn(|i| {
+            let x = self.0[i];
+            if x < T::zero() {
+                T::zero().simd_element_sub(x)
+            } else {
+                x
+            }
+        }))
     }
 
     #[inline]
